@@ -1582,8 +1582,12 @@ class Gen:
             n = fn.fresh('k')
             out.append(f'{ind}{n} = {ch.int(2, 4)}')
             out.append(f'{ind}for {i} in range({n}):')
-            out.append(f'{ind}    {n} = {n} - 1')
-            out.append(step)
+            if ch.bool(0.5):      # the bound is rebound only through a tuple destructuring
+                out.append(f'{ind}    {n}, {acc} = {n} - 1, ({acc} + {u})')
+                self.features.add('loop-bound-rebound-by-destructuring')
+            else:
+                out.append(f'{ind}    {n} = {n} - 1')
+                out.append(step)
             fn.env[n] = Sc(C.kind)
             fn.protected.add(n)
         elif form == 'range2':
@@ -1591,8 +1595,12 @@ class Gen:
             out.append(f'{ind}{lo} = {ch.int(0, 1)}')
             out.append(f'{ind}{hi} = {ch.int(3, 5)}')
             out.append(f'{ind}for {i} in range({lo}, {hi}):')
-            out.append(f'{ind}    {hi} = {hi} - 1')
-            out.append(step)
+            if ch.bool(0.5):
+                out.append(f'{ind}    {acc}, {hi} = ({acc} + {u}), {hi} - 1')
+                self.features.add('loop-bound-rebound-by-destructuring')
+            else:
+                out.append(f'{ind}    {hi} = {hi} - 1')
+                out.append(step)
             fn.env[lo] = Sc('u8')
             fn.env[hi] = Sc(C.kind)
             fn.protected.update((lo, hi))
